@@ -279,7 +279,7 @@ func (ev *evaluator) eval(e ast.Expr, hint types.Type) (*Val, error) {
 		case *types.Struct:
 			out := &Val{Kind: VStruct, Pos: x.Pos(), Fields: map[string]*Val{}}
 			for i := 0; i < u.NumFields(); i++ {
-				out.Order = append(out.Order, u.Field(i).Name())
+				out.Order = append(out.Order, fname(u.Field(i)))
 			}
 			for i, el := range x.Elts {
 				if kv, ok := el.(*ast.KeyValueExpr); ok {
@@ -300,12 +300,12 @@ func (ev *evaluator) eval(e ast.Expr, hint types.Type) (*Val, error) {
 					if err != nil {
 						return nil, err
 					}
-					out.Fields[u.Field(i).Name()] = v
+					out.Fields[fname(u.Field(i))] = v
 				}
 			}
 			for i := 0; i < u.NumFields(); i++ {
-				if out.Fields[u.Field(i).Name()] == nil {
-					out.Fields[u.Field(i).Name()] = zeroVal(u.Field(i).Type(), x.Pos())
+				if out.Fields[fname(u.Field(i))] == nil {
+					out.Fields[fname(u.Field(i))] = zeroVal(u.Field(i).Type(), x.Pos())
 				}
 			}
 			return out, nil
@@ -345,8 +345,8 @@ func zeroVal(t types.Type, pos token.Pos) *Val {
 	case *types.Struct:
 		out := &Val{Kind: VStruct, Pos: pos, Fields: map[string]*Val{}}
 		for i := 0; i < u.NumFields(); i++ {
-			out.Order = append(out.Order, u.Field(i).Name())
-			out.Fields[u.Field(i).Name()] = zeroVal(u.Field(i).Type(), pos)
+			out.Order = append(out.Order, fname(u.Field(i)))
+			out.Fields[fname(u.Field(i))] = zeroVal(u.Field(i).Type(), pos)
 		}
 		return out
 	}
